@@ -139,3 +139,11 @@ PROPS["C14"] = dict(num=14, labs=[], rule="Access table regenerated from the Go 
     extra=[("race", _vlib.race_lab), ("lockset", _vlib.lockset_pairs)],
     trusted_base=["tools/goextract/accesses.go (syntactic lock regions, intra-package inlining; blind spots listed in DESIGN.md)", "Go's race detector (used only to exhibit a schedule, never as the proof)"],
     assumptions=["sync.Mutex provides mutual exclusion; sync/atomic, channels, context, errgroup, WaitGroup are race-free by construction"])
+
+PROPS["C13"] = dict(num=13, labs=["kern"], rule="Kernel lab: private network namespaces (tools/netlab.py) client - r1 .. rn - destination, n = 1..3 (1..5 thorough), kernel routers with forwarding on; the harness binary runs the real RunTraceroute inside the client namespace "
+    "over real raw sockets and AF_PACKET capture: ICMP, UDP, TCP SYN to an open and to a closed port, TCP SACK, prefer_sack; a router with time-exceeded generation suppressed (nftables), a destination with tcp_sack=0, first TTL 2, a last TTL short of the destination, and 2-3 runs at once. "
+    "Every reply is produced by the kernel's own IP/ICMP/TCP stack.",
+    nontrivial="every scenario (a real run over kernel routers)", trivial_classes=[],
+    signatures={"13.1": "the reported path differs from the chain of router addresses followed by the destination (or destination marking / RTT sign)", "13.2": "method sack against a target without SACK did not fail as not-supported"},
+    trusted_base=["the Linux kernel of this sandbox IS the system under observation here; namespaces need CAP_NET_ADMIN (when unavailable the lab records that and covers nothing)", "tools/netlab.py topology builder"],
+    assumptions=["kernel conformance to the ideal path is sampled, never proved"])
